@@ -241,7 +241,7 @@ def sqlite_columns(tier):
         cols = tables[t].colnames()
         gc = group_col(tables, t)
         s = sel[t]
-        if not (len(s.where) == 1 and s.where[0][0] == gc and s.where[0][1] == '='):
+        if re.search(r'\bJOIN\b', s.text, re.I) or not s.where or not (len(s.where) == 1 and s.where[0][0] in (gc, 's.' + str(gc)) and s.where[0][1] == '='):
             r.fail(f'O2/{t}/snapshot-filter', f'snapshot of {t} is not filtered by exactly its group column: {s.text[:90]}')
         if s.limit is not None:
             r.fail(f'O2/{t}/snapshot-truncated', f'the snapshot of {t} reads at most LIMIT {s.limit} rows: the remaining rows of the group are missing from the snapshot and are destroyed by a rollback')
@@ -258,6 +258,24 @@ def sqlite_columns(tier):
             stale = [c for c in ins[t].cols if c not in tgt and c not in sets]
             if nothing or stale:
                 r.fail(f'O2/{t}/upsert-stale', f'restore upsert of {t} leaves column(s) {stale or "all"} at their current value')
+    # what the restore writes into the live tables is what the snapshot row carries: every bound parameter is the stored row itself or a value decoded from it
+    # (a key column bound to a function argument instead re-keys the restored row)
+    body = re.sub(r'//[^\n]*', '', S.fn_body(S.source('lib.rs'), 'restore_group_from_snapshot'))
+    decoded = set()
+    for m in re.finditer(r'let\s*\(([^)]*)\)\s*(?::\s*\([^;=]*?\))?\s*=\s*serde_json::from_slice', body, re.S):
+        decoded |= {x.strip().lstrip('mut ').strip() for x in m.group(1).split(',') if x.strip() and x.strip() != '_'}
+    for m in re.finditer(r'let\s+(\w+)\s*(?::[^=;]+)?=\s*serde_json::from_slice', body):
+        decoded.add(m.group(1))
+    flat = re.sub(r'\s+', ' ', body)
+    for m in re.finditer(r'"(INSERT(?: OR REPLACE)? INTO (\w+)[^"]*)"\s*,\s*(?:rusqlite::)?params!\s*\[([^\]]*)\]', flat):
+        tbl, plist = m.group(2), [x.strip().lstrip('&').strip() for x in S.split_top(m.group(3)) if x.strip()]
+        if tbl == 'group_state_snapshots':
+            continue
+        n += 1
+        foreign = [x for x in plist if re.fullmatch(r'\w+', x) and x not in decoded and x not in ('row_data', 'row_key') and not re.fullmatch(r'\d+', x)]
+        if foreign:
+            r.fail(f'O2/{tbl}/restore-value-not-from-snapshot', f'the restore INSERT into {tbl} binds {foreign}, which is not decoded from the snapshot row: the restored row is keyed / filled with a value '
+                   'other than the one that was snapshotted (e.g. the raw group id instead of the MlsCodec-encoded key), so the restored state is not the snapshotted one')
     # the OTHER snapshots of the group are deleted by the cascade and put back: they must come back unchanged, age included
     others_sel = [x for x in rest_prog if x.kind == 'SELECT' and x.table == 'group_state_snapshots' and any(isinstance(c, tuple) and c[0] == 'snapshot_name' and c[1] in ('!=', '<>') for c in (x.where or []))]
     others_ins = [x for x in rest_prog if x.kind == 'INSERT' and x.table == 'group_state_snapshots']
